@@ -4,6 +4,7 @@ import (
 	"fmt"
 	"go/token"
 	"go/types"
+	"strings"
 
 	"golang.org/x/tools/go/ssa"
 
@@ -169,6 +170,114 @@ func runC13(c *kit.Ctx) {
 		c.Assumption(fmt.Sprintf("%d calls of function values (parameters/struct fields: options, newClient factory, dialer) in the API closure are not followed", len(a.reach.Unresolved)))
 	}
 
+	// ---- R5 -----------------------------------------------------------------
+	c.StartRule("R5", "calls built by the library and sent synchronously carry the caller's context", 3)
+	for _, fn := range a.reach.Order {
+		kit.Instrs(fn, func(in ssa.Instruction) {
+			call, ok := in.(*ssa.Call)
+			if !ok {
+				return
+			}
+			callee := kit.StaticCallee(call)
+			if callee == nil || callee.Pkg == nil || callee.Pkg.Pkg.Path() != kit.Module+"/hrpc" || !strings.HasPrefix(callee.Name(), "New") || len(call.Call.Args) == 0 || !isCtxType(call.Call.Args[0]) {
+				return
+			}
+			// the call object: result 0
+			var obj ssa.Value = call
+			if call.Type().String() != "" {
+				if _, isTuple := call.Type().(*types.Tuple); isTuple {
+					obj = kit.ExtractOf(call, 0)
+				}
+			}
+			onlyAsync := obj != nil
+			nUse := 0
+			if obj != nil {
+				seen := map[ssa.Value]bool{}
+				var uses func(v ssa.Value)
+				uses = func(v ssa.Value) {
+					if seen[v] {
+						return
+					}
+					seen[v] = true
+					for _, r := range kit.Referrers(v) {
+						switch u := r.(type) {
+						case *ssa.Go:
+							nUse++
+						case *ssa.Call, *ssa.Defer:
+							nUse++
+							onlyAsync = false
+						case *ssa.Store:
+							// spilled into a local: follow its loads
+							if al, ok := u.Addr.(*ssa.Alloc); ok && u.Val == v {
+								for _, rr := range kit.Referrers(al) {
+									if l, ok := rr.(*ssa.UnOp); ok {
+										uses(l)
+									}
+								}
+							} else {
+								onlyAsync = false
+							}
+						case *ssa.MakeInterface, *ssa.ChangeInterface, *ssa.Phi:
+							uses(u.(ssa.Value))
+						case *ssa.Return, *ssa.MakeClosure, *ssa.MapUpdate, *ssa.Send:
+							onlyAsync = false
+						}
+					}
+				}
+				uses(obj)
+			}
+			os := a.originOf(call.Call.Args[0], 0)
+			if onlyAsync && nUse > 0 {
+				c.OK(fn, "built-call-context", call.Pos(), "the call is only handed to go statements: nobody waits for it ("+describeOrigins(os)+")")
+				return
+			}
+			c.Check(callerBound(os), fn, "built-call-context", call.Pos(), "built with a context bound to: "+describeOrigins(os),
+				"a request built inside the library with a context that is not the caller's ("+describeOrigins(os)+") is used synchronously on an API caller's goroutine: every wait below it watches that context, so the caller's cancellation is not observed")
+		})
+	}
+
+	// ---- R6 -----------------------------------------------------------------
+	c.StartRule("R6", "under SendBatch every wait up to the per-call send watches the batch's own context", 4)
+	if sbFn := c.Anchor("", "client", "SendBatch"); sbFn != nil {
+		single := p.Func("", "client", "SendRPC")
+		b := &ctxAnalysis{p: p, entries: map[*ssa.Function]bool{sbFn: true}}
+		b.reach = p.SyncReach([]*ssa.Function{sbFn}, func(site ssa.CallInstruction, callee *ssa.Function) bool { return callee == single })
+		b.propagate()
+		for _, fn := range b.reach.Order {
+			for _, op := range kit.BlockingOps(fn) {
+				sel, ok := op.Instr.(*ssa.Select)
+				if !ok {
+					continue
+				}
+				good := false
+				var descs []string
+				for _, st := range sel.States {
+					call, ok := st.Chan.(*ssa.Call)
+					if !ok || st.Dir != types.RecvOnly || kit.CalleeName(call) != ctxDone {
+						continue
+					}
+					os := b.originOf(call.Call.Value, 0)
+					descs = append(descs, describeOrigins(os))
+					all := len(os) > 0
+					for _, o := range os {
+						if o.Kind != "caller" {
+							all = false
+						}
+					}
+					if all {
+						good = true
+					}
+				}
+				c.Check(good, fn, "batch-context-wait", sel.Pos(), "has a Done() case of the batch context: "+fmt.Sprint(descs),
+					"a wait on the batch path has no Done() case bound to the context given to SendBatch (cases: "+fmt.Sprint(descs)+"): when the batch's context ends while this wait blocks, SendBatch does not return; "+reachPath(b.reach, fn))
+			}
+		}
+	}
+
+	// ---- R7 -----------------------------------------------------------------
+	c.StartRule("R7", "every retry cycle passes the context-watching back-off wait (shared with C17.R3)", 6)
+	retryLoopsWait(c)
+
 	// ---- R2 -----------------------------------------------------------------
 	c.StartRule("R2", "waits for a call's result also watch that call's own context", 2)
 	for _, si := range sels {
@@ -253,6 +362,37 @@ func runC13(c *kit.Ctx) {
 			}
 		})
 		c.Check(found, fn, "queue-done-case", fn.Pos(), "queueing select has a Done() case", "queueing no longer gives up when the context is done")
+	}
+
+	// the direct (not context-aware) send on the caller's goroutine is reserved to what the table above
+	// excuses: calls that cannot be batched, or a client configured without a queue
+	if qrpc := c.Anchor("region", "client", "QueueRPC"); qrpc != nil {
+		qsF := p.Field("region", "client", "rpcQueueSize")
+		n := 0
+		for _, ts := range kit.Calls(qrpc, kit.M("region", "*client", "trySend")) {
+			n++
+			e := kit.PathFromEntry(qrpc, kit.PathQuery{
+				Target: func(in ssa.Instruction) bool { return in == ts.(ssa.Instruction) },
+				SkipEdge: func(from, to *ssa.BasicBlock) bool {
+					for _, f := range kit.EdgeFacts(from, to) {
+						if call, ok := f.Cond.(*ssa.Call); ok && !f.Pol && kit.CalleeName(call) == kit.M("hrpc", "", "CanBatch") {
+							return true
+						}
+						if cmp, ok := kit.CanonCmp(f.Cond, f.Pol); ok && qsF != nil && isLoadOfField(cmp.X, qsF) {
+							if k, ok := kit.ConstInt(cmp.Y); ok && (cmp.Op == token.LEQ && k <= 1 || cmp.Op == token.LSS && k <= 2 || cmp.Op == token.EQL && k <= 1) {
+								return true
+							}
+						}
+					}
+					return false
+				},
+			})
+			c.Check(e == nil, qrpc, "direct-send-only-unbatchable", ts.Pos(), "the direct send is reached only when the call cannot be batched or the queue size is <= 1",
+				"a batchable call can bypass the queue although queueing is on: it takes the write lock and writes on the caller's goroutine, where no context is watched, instead of waiting in QueueBatch's select (which has the Done() case): "+c.BlockPath(e))
+		}
+		if n == 0 {
+			c.Unk(qrpc, "direct-send-only-unbatchable", qrpc.Pos(), "QueueRPC no longer sends directly")
+		}
 	}
 
 	// ---- R4 -----------------------------------------------------------------
